@@ -144,7 +144,7 @@ Record step_facts (E : env) (s : state) (i : input) (s' : state) (acts : list ac
   sf_rel : exists m', Rel (c0 E) s' m';
   sf_wf : WF s';
   sf_nval : s_nval s' = 0;
-  sf_above : above s s';
+  sf_above : input_low s i -> above s s';
   sf_col : col acts = true;
   sf_h : s_h s' = s_h s + N.of_nat (length (commit_hs acts));
   sf_votes : forall k v, In v (votes_of k acts) -> v_h v = s_h s;
@@ -177,33 +177,34 @@ Proof.
   pose proof (step_x_cells c (set_nval s 0) i W) as Ce.
   destruct (step_x c (set_nval s 0) i) as [[s1 acts] ex]. cbn [fst snd] in *.
   intros G R' Col H1 Hm' Vh Ch M.
-  assert (Low : input_low (set_nval s 0) i /\ plain_cond c (set_nval s 0) i s1 acts /\
+  assert (Low : plain_cond c (set_nval s 0) i s1 acts /\
                 match i with IStart _ => has_commit acts = false /\ i = IStart 0 | _ => True end).
-  { destruct i as [r|p|v|v|k h r]; cbn [input_low plain_cond msg_pos] in *.
+  { destruct i as [r|p|v|v|k h r]; cbn [plain_cond msg_pos] in *.
     - apply andb_prop in G. destruct G as [G1 G2]. apply Z.eqb_eq in G1. apply negb_true_iff in G2. subst. auto.
     - apply andb_prop in G. destruct G as [G G3]. apply andb_prop in G. destruct G as [G1 G2].
-      apply N.leb_le in G2. repeat split; auto. intro Ea. subst acts. apply rdata_eqb_eq in G3. symmetry. exact G3.
+      apply negb_true_iff in G2. repeat split; auto. intro Ea. subst acts. apply rdata_eqb_eq in G3. symmetry. exact G3.
     - apply andb_prop in G. destruct G as [G G3]. apply andb_prop in G. destruct G as [G1 G2].
-      apply N.leb_le in G2. repeat split; auto. intro Ea. subst acts. apply rdata_eqb_eq in G3. symmetry. exact G3.
+      apply negb_true_iff in G2. repeat split; auto. intro Ea. subst acts. apply rdata_eqb_eq in G3. symmetry. exact G3.
     - apply andb_prop in G. destruct G as [G G3]. apply andb_prop in G. destruct G as [G1 G2].
-      apply N.leb_le in G2. repeat split; auto. intro Ea. subst acts. apply rdata_eqb_eq in G3. symmetry. exact G3.
+      apply negb_true_iff in G2. repeat split; auto. intro Ea. subst acts. apply rdata_eqb_eq in G3. symmetry. exact G3.
     - apply andb_prop in G. destruct G as [_ G]. apply orb_prop in G. repeat split; auto.
       destruct G as [G|G]; [left; exact G|right].
       destruct (select c (set_nval s 0) None); try discriminate. reflexivity. }
-  destruct Low as [Low [Pc St]]. destruct (Ce Low) as [W1 [Ab Hle]].
+  destruct Low as [Pc St].
   constructor; cbn [fst snd].
   - eauto.
-  - exact W1.
+  - unfold WF. apply (R_h _ _ _ R').
   - reflexivity.
-  - exact Ab.
+  - intro Lw. assert (Lw' : input_low (set_nval s 0) i) by (destruct i; exact Lw). apply (Ce Lw').
   - exact Col.
   - rewrite <- Hm', H1, Hm. reflexivity.
   - exact Vh.
   - exact Ch.
-  - destruct (Sh Pc) as [Ea Ho|e rest Ea Hv Hi].
+  - destruct (Sh Pc) as [Ea Ho|e rest Ea Hv Hi|e Ea Hi Me Hlt].
     + apply sh_quiet; [exact Ea|].
       eapply obs_eq_trans; [apply obs_eq_set_nval0; exact Nv|]. apply (set_nval_obs _ _ 0 Ho).
     + apply (sh_logged _ _ _ _ e rest Ea Hv). exact Hi.
+    + apply (sh_future _ _ _ _ e Ea Hi Me). exact Hlt.
   - intro Hc. specialize (Cs Hc). unfold reset_scal in Cs. exact Cs.
   - exact St.
 Qed.
@@ -232,21 +233,32 @@ Section Crash.
   Hypothesis Qpos : quorum_positive E.
   Variable h0 : N.
   Hypothesis Hh0 : 1 <= h0.
+  (* what the life booted on: the log directory content, and the effects of the earlier lives of this validator *)
+  Variable D0 : list wrec.
+  Variable E0 : list effect.
 
-  Definition disk (pre : list effect) : list wrec := w_durable (apply_effects wal_empty pre).
+  Definition disk (pre : list effect) : list wrec := w_durable (apply_effects (mkWal D0 []) pre).
 
   (* recovery after a kill at the end of pre re-broadcasts every vote of pre at or above the resume height *)
   Definition CrashCov (pre : list effect) : Prop :=
-    forall n2 k v, In v (votes_in k pre) -> resume_height h0 pre <= v_h v ->
-      In v (votes_in k (flat (snd (recover E (resume_height h0 pre) (disk pre) n2)))).
+    (forall n2 k v, In v (votes_in k (E0 ++ pre)) -> resume_height h0 pre <= v_h v ->
+       In v (votes_in k (flat (snd (recover E (resume_height h0 pre) (disk pre) n2))))) /\
+    (* and no vote so far is for a height above the resume height *)
+    (forall k v, In v (votes_in k (E0 ++ pre)) -> v_h v <= resume_height h0 pre).
 
   Lemma CrashCov_ext : forall pre pre', disk pre' = disk pre -> resume_height h0 pre' = resume_height h0 pre ->
     (forall k v, In v (votes_in k pre') -> In v (votes_in k pre)) -> CrashCov pre -> CrashCov pre'.
   Proof.
-    intros pre pre' Hd Hr Hv C n2 k v Hin Hh. rewrite Hd, Hr in *. apply C; auto.
+    intros pre pre' Hd Hr Hv [C1 C2].
+    assert (Sub : forall k v, In v (votes_in k (E0 ++ pre')) -> In v (votes_in k (E0 ++ pre))).
+    { intros k v Hin. rewrite votes_in_app in *. apply in_app_or in Hin. apply in_or_app.
+      destruct Hin as [Hin|Hin]; [left; exact Hin|right; auto]. }
+    split.
+    - intros n2 k v Hin Hh. rewrite Hd, Hr in *. apply C1; auto.
+    - intros k v Hin. rewrite Hr. apply (C2 k v). auto.
   Qed.
 
-  Lemma disk_snoc : forall pre e, disk (pre ++ [e]) = w_durable (apply_effect (apply_effects wal_empty pre) e).
+  Lemma disk_snoc : forall pre e, disk (pre ++ [e]) = w_durable (apply_effect (apply_effects (mkWal D0 []) pre) e).
   Proof. intros. unfold disk. rewrite apply_effects_app. reflexivity. Qed.
   Definition vote_cov (H : N) (V : list effect) (acts : list action) : Prop :=
     forall k v, In v (votes_in k V) -> H <= v_h v -> In v (votes_of k acts).
@@ -319,18 +331,18 @@ Section Crash.
     Variable D1 : list wrec.
     Variable rest0 : list action.
     Hypothesis HsPos : 0 < Hs.
-    Hypothesis VH : forall k v, In v (votes_in k effs) \/ In v (votes_of k rest0) -> v_h v <= Hs.
-    Hypothesis Cov1 : forall n2 k v, (In v (votes_in k effs) /\ Hs <= v_h v) \/ In v (votes_of k rest0) ->
+    Hypothesis VH : forall k v, In v (votes_in k (E0 ++ effs)) \/ In v (votes_of k rest0) -> v_h v <= Hs.
+    Hypothesis Cov1 : forall n2 k v, (In v (votes_in k (E0 ++ effs)) /\ Hs <= v_h v) \/ In v (votes_of k rest0) ->
       In v (votes_in k (flat (snd (recover E Hs D1 n2)))).
     Hypothesis CH : forall p, In (ACommit p) rest0 -> p_h p = Hs.
     Hypothesis PB : prunes_below Hs D1.
 
     Definition allowed (pre : list effect) : Prop :=
-      forall k v, In v (votes_in k pre) -> In v (votes_in k effs) \/ In v (votes_of k rest0).
+      forall k v, In v (votes_in k (E0 ++ pre)) -> In v (votes_in k (E0 ++ effs)) \/ In v (votes_of k rest0).
 
     Record Mid (wm : wal) (pre : list effect) : Prop := mkMid {
       m_cc : CrashCov pre;
-      m_wal : wm = apply_effects wal_empty pre;
+      m_wal : wm = apply_effects (mkWal D0 []) pre;
       m_res : resume_height h0 pre = Hs;
       m_allowed : allowed pre;
       m_recs : w_durable wm ++ w_pending wm = D1;
@@ -339,16 +351,20 @@ Section Crash.
 
     Lemma cc_flushed : forall pre, disk pre = D1 -> resume_height h0 pre = Hs -> allowed pre -> CrashCov pre.
     Proof.
-      intros pre Hd Hr Ha n2 k v Hin Hh. rewrite Hd, Hr in *. apply Cov1.
-      destruct (Ha k v Hin) as [X|X]; [left; split; assumption|right; exact X].
+      intros pre Hd Hr Ha. split.
+      - intros n2 k v Hin Hh. rewrite Hd, Hr in *. apply Cov1.
+        destruct (Ha k v Hin) as [X|X]; [left; split; assumption|right; exact X].
+      - intros k v Hin. rewrite Hr. apply (VH k v (Ha k v Hin)).
     Qed.
     Lemma cc_vacuous : forall pre, resume_height h0 pre = Hs + 1 -> allowed pre -> CrashCov pre.
     Proof.
-      intros pre Hr Ha n2 k v Hin Hh. rewrite Hr in Hh. pose proof (VH k v (Ha k v Hin)). lia.
+      intros pre Hr Ha. split.
+      - intros n2 k v Hin Hh. rewrite Hr in Hh. pose proof (VH k v (Ha k v Hin)). lia.
+      - intros k v Hin. rewrite Hr. pose proof (VH k v (Ha k v Hin)). lia.
     Qed.
 
     Lemma allowed_same : forall pre l, (forall k, votes_in k l = []) -> allowed pre -> allowed (pre ++ l).
-    Proof. intros pre l Hl Ha k v Hin. rewrite votes_in_app, Hl, app_nil_r in Hin. apply Ha. exact Hin. Qed.
+    Proof. intros pre l Hl Ha k v Hin. rewrite app_assoc, votes_in_app, Hl, app_nil_r in Hin. apply Ha. exact Hin. Qed.
 
     Lemma exec_mid : forall rest wm pre, all_vis rest -> col rest = true ->
       (forall a, In a rest -> In a rest0) -> Mid wm pre ->
@@ -363,8 +379,9 @@ Section Crash.
          resume_height h0 (pre ++ snd (fst (exec false wm rest))) = Hs + 1).
     Proof.
       induction rest as [|a rest IH]; intros wm pre AV C Inc M.
-      - cbn [exec fst snd]. rewrite app_nil_r. destruct M. repeat split; auto; try discriminate.
-        intro j. rewrite firstn_nil, app_nil_r. assumption.
+      - cbn [exec fst snd]. rewrite app_nil_r. destruct M as [Mcc Mw Mr Ma Mrec Mnp].
+        split; [intro j; rewrite firstn_nil, app_nil_r; exact Mcc|]. split; [exact Ma|].
+        split; [intros _; auto|discriminate].
       - destruct (all_vis_inv _ _ AV) as [Qa AV'].
         assert (Crest : col rest = true).
         { simpl in C. destruct rest; [reflexivity|]. apply andb_prop in C. apply C. }
@@ -408,7 +425,7 @@ Section Crash.
           cbn [exec pre_flush requires_flush negb andb exec_one]. rewrite Fw.
           set (ea := [Flush; Bcast (MPrevote v)]).
           assert (Al : allowed (pre ++ ea)).
-          { intros k x Hin. unfold ea in Hin. rewrite votes_in_app in Hin. apply in_app_or in Hin.
+          { intros k x Hin. unfold ea in Hin. rewrite app_assoc, votes_in_app in Hin. apply in_app_or in Hin.
             destruct Hin as [Hin|Hin]; [apply Ma; exact Hin|right].
             apply (votes_of_In k (ABroadcastPrevote v) rest0 x Ina). destruct k; simpl in *; exact Hin. }
           assert (M' : Mid (mkWal D1 []) (pre ++ ea)).
@@ -435,7 +452,7 @@ Section Crash.
           cbn [exec pre_flush requires_flush negb andb exec_one]. rewrite Fw.
           set (ea := [Flush; Bcast (MPrecommit v)]).
           assert (Al : allowed (pre ++ ea)).
-          { intros k x Hin. unfold ea in Hin. rewrite votes_in_app in Hin. apply in_app_or in Hin.
+          { intros k x Hin. unfold ea in Hin. rewrite app_assoc, votes_in_app in Hin. apply in_app_or in Hin.
             destruct Hin as [Hin|Hin]; [apply Ma; exact Hin|right].
             apply (votes_of_In k (ABroadcastPrecommit v) rest0 x Ina). destruct k; simpl in *; exact Hin. }
           assert (M' : Mid (mkWal D1 []) (pre ++ ea)).
@@ -550,214 +567,4 @@ Section Crash.
 
   Lemma vc_new_cell : forall h h' r, cell (vc_new h) h' r = r_empty.
   Proof. intros. unfold cell, row, fut, vc_new. simpl. destruct (h' =? h); reflexivity. Qed.
-  (* ---------- the boundary invariant ---------- *)
-  Record BI (d : dstate) (effs : list effect) : Prop := mkBI {
-    b_wf : WF (d_sm d);
-    b_nv : s_nval (d_sm d) = 0;
-    b_cinv : CInv E h0 d effs;
-    b_low : Forall (fun e => ht e <= s_h (d_sm d)) (apps effs);
-    b_sorted : hsorted (apps effs);
-    b_empty : forall h' r, s_h (d_sm d) < h' -> cell (s_vc (d_sm d)) h' r = r_empty;
-    b_replay : obs_eq (fst (fst (rep (s_h (d_sm d)) (apps effs)))) (d_sm d);
-    b_cover : vote_cov (s_h (d_sm d)) effs (snd (rep (s_h (d_sm d)) (apps effs)));
-    b_vh : forall k v, In v (votes_in k effs) -> v_h v <= s_h (d_sm d);
-    b_wal : d_wal d = apply_effects wal_empty effs;
-    b_recs : rents (w_durable (d_wal d) ++ w_pending (d_wal d)) = apps effs;
-    b_prunes : prunes_below (s_h (d_sm d)) (w_durable (d_wal d) ++ w_pending (d_wal d));
-    b_noprune : no_prune (w_pending (d_wal d));
-    b_crash : forall j, CrashCov (firstn j effs)
-  }.
-
-  Lemma BI_height : forall d effs, BI d effs -> s_h (d_sm d) = resume_height h0 effs /\ 0 < s_h (d_sm d).
-  Proof.
-    intros d effs B. destruct (b_cinv _ _ B) as [_ [C H]].
-    rewrite (resume_height_count effs h0 C). split; [exact H|lia].
-  Qed.
-
-  Lemma BI_init : BI (boot h0 [] 0) [].
-  Proof.
-    constructor; cbn [boot d_sm d_wal d_calls apps flat_map init_state s_h s_vc s_nval w_durable w_pending app].
-    - reflexivity.
-    - reflexivity.
-    - split; [exists (mon_init h0); apply Rel_init|]. simpl. split; [reflexivity|lia].
-    - constructor.
-    - exact I.
-    - intros. apply vc_new_cell.
-    - unfold rep. simpl. apply obs_eq_refl.
-    - intros k v Hin. destruct k; contradiction.
-    - intros k v Hin. destruct k; contradiction.
-    - reflexivity.
-    - reflexivity.
-    - constructor.
-    - constructor.
-    - intros j n2 k v Hin. rewrite firstn_nil in Hin. destruct k; contradiction.
-  Qed.
-  Lemma BI_quiet : forall s w n effs i s' n',
-    BI (mkD s w n) effs -> step_facts E s i s' [] -> obs_eq s s' -> CInv E h0 (mkD s' w n') effs ->
-    BI (mkD s' w n') effs.
-  Proof.
-    intros s w n effs i s' n' B SF Ho CI. destruct B as [Bwf Bnv Bci Blow Bso Bem Bre Bco Bvh Bwal Brec Bpr Bnp Bcr].
-    cbn [d_sm d_wal] in *.
-    assert (Eh : s_h s' = s_h s) by (rewrite (sf_h _ _ _ _ _ SF); simpl; lia).
-    constructor; cbn [d_sm d_wal]; rewrite ?Eh; auto.
-    - apply (sf_wf _ _ _ _ _ SF).
-    - apply (sf_nval _ _ _ _ _ SF).
-    - intros h' r Hlt. rewrite (sf_above _ _ _ _ _ SF) by exact Hlt. apply Bem. exact Hlt.
-    - eapply obs_eq_trans; [exact Bre|exact Ho].
-  Qed.
-  Lemma BI_logged : forall s w n effs i s' n' e rest,
-    BI (mkD s w n) effs ->
-    sm_step E s n i = (s', n', wal_of e :: rest) ->
-    step_facts E s i s' (wal_of e :: rest) -> all_vis rest ->
-    input_of_entry e = i -> ht e = s_h s ->
-    CInv E h0 (mkD s' (fst (fst (exec false w (wal_of e :: rest)))) n')
-         (effs ++ snd (fst (exec false w (wal_of e :: rest)))) ->
-    BI (mkD s' (fst (fst (exec false w (wal_of e :: rest)))) n')
-       (effs ++ snd (fst (exec false w (wal_of e :: rest)))).
-  Proof.
-    intros s w n effs i s' n' e rest B Hst SF AV Hi He CI.
-    destruct (BI_height _ _ B) as [Hres Hpos]. cbn [d_sm] in Hres, Hpos.
-    destruct B as [Bwf Bnv Bci Blow Bso Bem Bre Bco Bvh Bwal Brec Bpr Bnp Bcr]. cbn [d_sm d_wal] in *.
-    set (Hs := s_h s) in *. set (dur := w_durable w) in *. set (pend := w_pending w) in *.
-    set (D1 := (dur ++ pend) ++ [REntry e]).
-    assert (Col : col (wal_of e :: rest) = true) by apply (sf_col _ _ _ _ _ SF).
-    assert (Crest : col rest = true) by (eapply col_tail; exact Col).
-    (* the append is not dropped *)
-    assert (PBd : prunes_below Hs dur).
-    { unfold prunes_below in *. apply Forall_app in Bpr. apply Bpr. }
-    assert (Wa : wal_append e w = mkWal dur (pend ++ [REntry e])).
-    { unfold wal_append. fold dur pend. pose proof (pruned_below Hs dur Hpos PBd).
-      fold ht. destruct (ht e <=? pruned_upto dur) eqn:El; [lia|reflexivity]. }
-    rewrite exec_logged, Wa in *. cbn [fst snd] in *.
-    (* facts for the induction over the remaining actions *)
-    assert (PB1 : prunes_below Hs D1).
-    { unfold prunes_below, D1. apply Forall_app. split; [exact Bpr|]. constructor; [exact I|constructor]. }
-    assert (Rn : rents D1 = apps effs ++ [e]) by (unfold D1; rewrite rents_app, Brec; reflexivity).
-    assert (So1 : hsorted (apps effs ++ [e])).
-    { apply hsorted_app. split; [exact Bso|]. split; [simpl; auto|].
-      intros x y Hx [<-|[]]. rewrite Forall_forall in Blow. rewrite He. apply Blow. exact Hx. }
-    destruct (rep_next s n i effs e Bre He Hi) as [RN1 RN2]. rewrite Hst in RN1, RN2. cbn [fst snd] in RN1, RN2.
-    assert (VH : forall k v, In v (votes_in k effs) \/ In v (votes_of k rest) -> v_h v <= Hs).
-    { intros k v [X|X]; [apply (Bvh k v X)|].
-      rewrite <- (votes_wal_of k e rest) in X. rewrite (sf_votes _ _ _ _ _ SF k v X). unfold Hs. lia. }
-    assert (Cov1 : forall n2 k v, (In v (votes_in k effs) /\ Hs <= v_h v) \/ In v (votes_of k rest) ->
-              In v (votes_in k (flat (snd (recover E Hs D1 n2))))).
-    { intros n2 k v X. rewrite (recover_votes Hs D1 n2 k Hpos PB1) by (rewrite Rn; exact So1).
-      rewrite Rn. apply RN2. destruct X as [[X1 X2]|X]; [left; apply Bco; assumption|right].
-      rewrite votes_wal_of. exact X. }
-    assert (CH : forall p, In (ACommit p) rest -> p_h p = Hs).
-    { intros p X. apply (sf_commit _ _ _ _ _ SF p). right. exact X. }
-    assert (M0 : Mid effs Hs D1 rest (mkWal dur (pend ++ [REntry e])) (effs ++ [Append e])).
-    { constructor.
-      - apply (CrashCov_ext effs).
-        + rewrite disk_snoc, <- Bwal. cbn [apply_effect]. rewrite Wa. unfold disk. rewrite <- Bwal. reflexivity.
-        + rewrite resume_height_app. reflexivity.
-        + intros k v X. rewrite votes_in_app in X. destruct k; simpl in X; rewrite app_nil_r in X; exact X.
-        + specialize (Bcr (length effs)). rewrite firstn_all in Bcr. exact Bcr.
-      - rewrite apply_effects_app, <- Bwal. cbn [apply_effects fold_left apply_effect]. symmetry. exact Wa.
-      - rewrite resume_height_app. cbn [resume_height commits_in flat_map fold_left]. symmetry. exact Hres.
-      - intros k v X. left. rewrite votes_in_app in X. destruct k; simpl in X; rewrite app_nil_r in X; exact X.
-      - cbn [w_durable w_pending]. unfold D1. rewrite app_assoc. reflexivity.
-      - cbn [w_pending]. unfold no_prune in *. apply Forall_app. split; [exact Bnp|]. constructor; [exact I|constructor]. }
-    destruct (exec_mid effs Hs D1 rest Hpos VH Cov1 CH PB1 rest _ _ AV Crest (fun a H => H) M0) as [X1 [X2 [X3 X4]]].
-    pose proof (exec_vis_apps rest (mkWal dur (pend ++ [REntry e])) AV) as NoApp.
-    pose proof (exec_votes_eq Prevote false rest (mkWal dur (pend ++ [REntry e])) Crest) as Vpv.
-    pose proof (exec_votes_eq Precommit false rest (mkWal dur (pend ++ [REntry e])) Crest) as Vpc.
-    pose proof (exec_wal false rest (mkWal dur (pend ++ [REntry e]))) as Wf.
-    destruct (exec false (mkWal dur (pend ++ [REntry e])) rest) as [[wf more] com]. cbn [fst snd] in *.
-    (* the new effect list *)
-    assert (EA : effs ++ Append e :: more = (effs ++ [Append e]) ++ more) by (rewrite <- app_assoc; reflexivity).
-    assert (Ap : apps (effs ++ Append e :: more) = apps effs ++ [e]).
-    { rewrite EA, !apps_app, NoApp, app_nil_r. reflexivity. }
-    assert (Vin : forall k v, In v (votes_in k (effs ++ Append e :: more)) ->
-                   In v (votes_in k effs) \/ In v (votes_of k rest)).
-    { intros k v X. rewrite EA in X. apply (X2 k v X). }
-    assert (Hnew : s_h s' = resume_height h0 (effs ++ Append e :: more)).
-    { destruct CI as [_ [C H]]. cbn [d_sm] in H. rewrite (resume_height_count _ h0 C). exact H. }
-    assert (Crash' : forall j, CrashCov (firstn j (effs ++ Append e :: more))).
-    { apply crash_prefixes; [exact Bcr|]. intros [|j]; [rewrite app_nil_r; specialize (Bcr (length effs)); rewrite firstn_all in Bcr; exact Bcr|].
-      cbn [firstn]. change (effs ++ Append e :: firstn j more) with (effs ++ [Append e] ++ firstn j more).
-      rewrite app_assoc. apply X1. }
-    assert (Wal' : wf = apply_effects wal_empty (effs ++ Append e :: more)).
-    { rewrite Wf, EA, apply_effects_app. f_equal. apply (m_wal _ _ _ _ _ _ M0). }
-    destruct com.
-    - (* the call committed: the next height starts from a clean slate *)
-      destruct (X4 eq_refl) as [Y1 Y2]. rewrite <- EA in Y2.
-      assert (Eh : s_h s' = Hs + 1) by (rewrite Hnew; exact Y2).
-      assert (Hc : has_commit (wal_of e :: rest) = true).
-      { destruct (has_commit (wal_of e :: rest)) eqn:Hc; [reflexivity|]. apply has_commit_hs in Hc.
-        pose proof (sf_h _ _ _ _ _ SF) as Z. rewrite Hc in Z. simpl in Z. fold Hs in Z. lia. }
-      assert (Below : Forall (fun x => ht x < Hs + 1) (apps effs ++ [e])).
-      { apply Forall_app. split; [eapply Forall_impl; [|exact Blow]; intros x Hx; simpl in Hx; lia|].
-        constructor; [lia|constructor]. }
-      constructor; cbn [d_sm d_wal]; rewrite ?Eh, ?Ap.
-      + apply (sf_wf _ _ _ _ _ SF).
-      + apply (sf_nval _ _ _ _ _ SF).
-      + exact CI.
-      + eapply Forall_impl; [|exact Below]. intros x Hx. simpl in Hx. lia.
-      + exact So1.
-      + intros h' r Hlt. rewrite (sf_above _ _ _ _ _ SF) by (fold Hs; lia). apply Bem. lia.
-      + unfold rep. rewrite (above_f_none _ _ Below). cbn [sm_replay_acts fst].
-        split.
-        * rewrite (sf_reset _ _ _ _ _ SF Hc), Eh. reflexivity.
-        * split; [cbn [init_state s_vc vc_new vc_h]; rewrite (sf_wf _ _ _ _ _ SF); exact (eq_sym Eh)|].
-          intros h' r Hh'. cbn [init_state s_vc vc_new vc_h] in Hh'. cbn [init_state s_vc]. rewrite vc_new_cell.
-          rewrite (sf_above _ _ _ _ _ SF) by (fold Hs; lia). symmetry. apply Bem. lia.
-      + intros k v X Hh. pose proof (VH k v (Vin k v X)). lia.
-      + intros k v X. pose proof (VH k v (Vin k v X)). lia.
-      + exact Wal'.
-      + rewrite Y1. cbn [w_durable w_pending]. rewrite app_nil_r, rents_app, Rn. simpl. apply app_nil_r.
-      + rewrite Y1. cbn [w_durable w_pending]. rewrite app_nil_r. unfold prunes_below. apply Forall_app. split.
-        * apply (prunes_below_mono Hs); [lia|exact PB1].
-        * constructor; [lia|constructor].
-      + rewrite Y1. constructor.
-      + exact Crash'.
-    - (* no commit: same height, one more entry replayed *)
-      destruct (X3 eq_refl) as [Y1 [Y2 Y3]]. rewrite <- EA in Y3.
-      assert (Eh : s_h s' = Hs) by (rewrite Hnew; exact Y3).
-      constructor; cbn [d_sm d_wal]; rewrite ?Eh, ?Ap.
-      + apply (sf_wf _ _ _ _ _ SF).
-      + apply (sf_nval _ _ _ _ _ SF).
-      + exact CI.
-      + apply Forall_app. split; [exact Blow|]. constructor; [lia|constructor].
-      + exact So1.
-      + intros h' r Hlt. rewrite (sf_above _ _ _ _ _ SF) by exact Hlt. apply Bem. exact Hlt.
-      + exact RN1.
-      + intros k v X Hh. apply RN2. destruct (Vin k v X) as [Z|Z]; [left; apply Bco; assumption|right].
-        rewrite votes_wal_of. exact Z.
-      + intros k v X. apply (VH k v (Vin k v X)).
-      + exact Wal'.
-      + rewrite Y1. exact Rn.
-      + rewrite Y1. exact PB1.
-      + exact Y2.
-      + exact Crash'.
-  Qed.
-  Lemma BI_step : forall d i effs, BI d effs -> good_step E d i = true ->
-    BI (fst (fst (dstep E false d i))) (effs ++ snd (fst (dstep E false d i))).
-  Proof.
-    intros [s w n] i effs B G.
-    assert (Hok : ok_input s i = true).
-    { unfold good_step, good_body in G. cbn [d_sm d_calls] in G. apply andb_prop in G. apply G. }
-    pose proof (CInv_step E h0 false (mkD s w n) i effs (b_cinv _ _ B) Hok) as CI.
-    destruct (b_cinv _ _ B) as [[m R] _]. cbn [d_sm] in R.
-    pose proof (sm_step_facts E s w n i m R (b_wf _ _ B) (b_nv _ _ B) G) as SF.
-    revert CI. rewrite dstep_spec. unfold sm_of. cbn [d_sm d_calls d_wal fst snd].
-    destruct (sm_step E s n i) as [[s' n'] acts] eqn:Hst. cbn [fst snd] in *. intro CI.
-    destruct (sf_shape _ _ _ _ _ SF) as [Ea Ho|e rest Ea AV Hi].
-    - subst acts. cbn [exec fst snd] in *. rewrite app_nil_r in *. eapply BI_quiet; eassumption.
-    - subst acts.
-      assert (Hie : input_of_entry e = i /\ ht e = s_h s).
-      { destruct i as [r|p|v|v|k h r]; try exact Hi.
-        destruct (sf_start _ _ _ _ _ SF) as [Hc Hi0]. subst e. split; [symmetry; exact Hi0|].
-        apply has_commit_hs in Hc. pose proof (sf_h _ _ _ _ _ SF) as Z. rewrite Hc in Z. simpl in Z.
-        unfold ht. simpl. lia. }
-      destruct Hie as [Hi1 Hi2]. eapply BI_logged; eassumption.
-  Qed.
-
-  (* the invariant holds at the end of every plain life *)
-  Lemma BI_run : forall ins, good_run E h0 ins = true ->
-    BI (fst (lifetime E h0 [] 0 ins)) (flat (snd (lifetime E h0 [] 0 ins))).
-  Proof.
-    intros ins G. apply (run_PG E BI); [intros; apply BI_step; assumption|exact G|apply BI_init].
-  Qed.
 End Crash.
